@@ -206,6 +206,8 @@ theorem tvA_step (sch : SchemaEval) (n : Nat) (ih : TvUpTo sch n) (op : String) 
           split
           · apply elemLoop_tv
             intro x
+            split
+            · exact isTV_notMatched
             by_cases hop : isOpKey k = true
             · simp only [hop, ↓reduceIte, Option.map_eq_some_iff] at hp
               obtain ⟨cs, hcs, _⟩ := hp
